@@ -90,6 +90,14 @@ AlwaysReturns == <>(Returned("stop") /\ Returned("cont"))
 (* Used by the trace specification: is a recorded phase list a run of the   *)
 (* machine?  q is a sequence of [p |-> phase, e |-> errors so far].         *)
 (***************************************************************************)
+\* the part of a run that the properties themselves talk about (C07: the validation ends by returning - the deferred
+\* bookkeeping is the last step; C10: what was reported is never taken back). The rest of IsRun - the ORDER of the phases
+\* and the early-stop policy - describes the present implementation, not a property: a trace that satisfies IsRunCore but
+\* not IsRun means "the code no longer follows this model" (reported as model drift, not as a violation).
+IsRunCore(q) ==
+  /\ Len(q) >= 1 /\ q[Len(q)].p = "return"
+  /\ \A i \in 1..(Len(q) - 1) : q[i].p # "return" /\ (q[i].e => q[i+1].e)
+
 IsRun(q, mode, circular) ==
   /\ Len(q) >= 1 /\ q[Len(q)].p = "return"
   /\ \A i \in 1..(Len(q) - 1) : q[i].p # "return"
